@@ -131,6 +131,9 @@ func genIncFault(t *rapid.T) incFaultCase {
 	o.MissingTTLError = false
 	o.DeepChain = rapid.IntRange(0, 9).Draw(t, "deep") == 9
 	z := zm.GenZone(t, o)
+	for tries := 0; len(z.Files) == 0 && tries < 3; tries++ {
+		z = zm.GenZone(t, o) // a zone without any $INCLUDE: draw again
+	}
 	c := finish(t, z, 1)
 	c.UseOS = false
 	out := incFaultCase{Case: c, Kind: rapid.IntRange(0, 2).Draw(t, "kind")}
